@@ -109,7 +109,6 @@ def opScan (j : Json) : Except String Json := do
   let lines : List Str := match j.getObjVal? "lines" with
     | .ok (.arr a) => a.toList.filterMap fun x => x.getStr?.toOption.map String.toList
     | _ => []
-  let isStdin := (j.getObjValAs? Bool "stdin").toOption.getD false
   let nm : NosecMap := if ignoreNosec then [] else
     comments.map fun (ln, t) => (ln, Nosec.parse Gen.charClasses Gen.registry t)
   let strs (j : Json) (k : String) : List Str := match j.getObjVal? k with
@@ -124,7 +123,7 @@ def opScan (j : Json) : Except String Json := do
       | some s => fun i => s.contains i
       | none => fun _ => true
   let checks := testSet (effectiveCfg over) fname Gen.blTables keep
-  let es := scanFile checks { root := tree, nosec := nm, lines := lines, isStdin := isStdin }
+  let es := scanFile checks { root := tree, nosec := nm, lines := lines }
   return Json.mkObj [
     ("findings", Json.arr ((findingsOf es).map findingJson).toArray),
     ("nosec", Json.num (nosecCount es)),
